@@ -301,3 +301,27 @@ def c15f(ctx):
         ok = bool(reads) and all(g.guarded(n, isnone, True) for n, x in reads) and bool(rer) and all(g.guarded(n, isnone, False) for n, x in rer)
         ctx.check(ok, '%s:result-iff-no-exception' % fn.short, '.result is used only when .exception is None; otherwise the exception is re-raised (or recorded)', fn,
                   fail='%s reads .result of a failed item or re-raises a successful one: a failure is swallowed or attributed wrongly' % fn.short)
+
+
+@rule('C15.g', floor=3)
+def c15g(ctx):
+    """a forced pool shutdown drains the queues: it is only allowed on the way out.  Wherever a consumer of result objects calls
+    shutdown(True) no further result is taken afterwards -- every path from the shutdown ends in a raise (no path back into the
+    loop or to a normal return)"""
+    users = ['mapproxy/service/wms.py:LayerRenderer._render_raise_exceptions', 'mapproxy/service/wms.py:LayerRenderer._render_capture_source_errors',
+             'mapproxy/cache/tile.py:TileCreator._create_bulk_meta_tile']
+    for qn in users:
+        fn = ctx.fn(qn)
+        g = fn.cfg
+        shut = [(n, x) for n, x in g.find(lambda x: is_call(x, 'shutdown')) if x.args and const_value(x.args[0]) is True or
+                const_value(keyword(x, 'force', 0)) is True]
+        if not shut:
+            ctx.ok('%s:no-forced-shutdown' % fn.short, 'no forced shutdown in this consumer', fn)
+            continue
+        for n, x in shut:
+            reach = g.reachable(n, no_exc=True)
+            loops = [g.node_of[id(l)] for l in fn.walk_all() if isinstance(l, (ast.For, ast.While)) and id(l) in g.node_of and inside(x, l)]
+            ok = g.EXIT not in reach and not any(h in reach for h in loops)
+            ctx.check(ok, '%s:forced-shutdown-only-before-raise' % fn.short, 'after shutdown(True) the consumer leaves by raising', fn, x,
+                      fail='the pool is shut down (queues drained, workers stopped) and the consumer carries on: results of the remaining items are '
+                           'lost or the consumer blocks on the result queue')
